@@ -274,7 +274,7 @@ v("c17-supply-constant-again", {"C17"}, (GU, "    supply = max(bigNumber, sum(G[
 v("benign-supply-two-steps", B, (GU, "    supply = max(bigNumber, sum(G[x][y][demands_attr] for x, y in G.edges()) + 1)\n",
                                 "    total_demand = sum(G[x][y][demands_attr] for x, y in G.edges())\n    supply = max(bigNumber, total_demand + 1)\n", 1))
 v("c20-early-return-again", {"C20"}, (GU, "    # Parse edges: skip blanks and comment/header lines defensively\n", "    if n == 0:\n        return G\n\n    # Parse edges: skip blanks and comment/header lines defensively\n", 1))
-v("c16-error-from-variables-again", {"C16"}, (MEF, "        error = sum(\n            abs(data[self.flow_attr] - self.edge_sol[(u, v)])\n            for u, v, data in self.G.edges(data=True)\n            if (u, v) not in self.edges_to_ignore\n        )\n",
+v("c16-error-from-variables-again", {"C16"}, (MEF, "        error = sum(\n            abs((int(data[self.flow_attr]) if isinstance(data[self.flow_attr], numbers.Integral) else float(data[self.flow_attr])) - self.edge_sol[(u, v)])\n            for u, v, data in self.G.edges(data=True)\n            if (u, v) not in self.edges_to_ignore\n        )\n",
                                              "        error = sum(self.solver.get_values(self.edge_error_vars).values())\n", 1))
 v("c05-greedy-with-superset-again", {"C05"}, (KFD, " and satisfies_flow_conservation and solution_weights_superset is None:", " and satisfies_flow_conservation:", 1))
 v("c11-length-attr-dropped-again", {"C11", "C10"}, (KPC, "node_flow_attr=node_flow_attr, node_length_attr=length_attr)", "node_flow_attr=node_flow_attr)", 1))
